@@ -80,6 +80,9 @@ func fertRef(sc *Scenario, e *FertEvent) (ndir, nh4, nfast, nslow float64, ok bo
 }
 
 type monC10 struct {
+	irrDay         bool    // an irrigation was applied today: the day's surface flux must reach the soil over the whole day
+	irrInfil, irrQ float64 // surface flux x sub-step length summed over today's water sub-steps; the day's surface flux
+	irrZeit        int
 	beginn, ende                      int
 	expFert                           []expEvent
 	expTill                           []expEvent
@@ -199,8 +202,14 @@ func (m *monC10) Event(ev *hermes.VerifEvent, rc *RunCtx) {
 		m.beginn, m.ende = g.BEGINN, g.ENDE
 		m.build(sc)
 	case "day_begin":
+		m.irrigationInFull(rc)
 		m.c1Begin = g.C1[0]
 		m.measToday = measurementDay(g, ev.Zeit)
+	case "post_water":
+		if m.irrDay {
+			m.irrInfil += g.FLUSS0 * ev.Wdt
+			m.irrQ = g.FLUSS0
+		}
 	case "pre_evatra":
 		// irrigation water enters today's infiltration; irrigation N enters the top layer
 		want := 0.0
@@ -220,6 +229,7 @@ func (m *monC10) Event(ev *hermes.VerifEvent, rc *RunCtx) {
 				rc.Violate("C10", "irrigation_not_in_infiltration", fmt.Sprintf("%s: water offered to the surface %.6g cm != rain %.6g + irrigation %.6g", DateOfZeit(ev.Zeit), g.REGEN[g.TAG.Index], g.REGENdaily, want), ev.Zeit, 0, nil)
 			}
 			rc.Cov("irrigation_days_checked", 1)
+			m.irrDay, m.irrInfil, m.irrQ, m.irrZeit = true, 0, 0, ev.Zeit
 		}
 		if !m.measToday {
 			got := g.C1[0] - m.c1Begin
@@ -323,6 +333,9 @@ func runErrorViolation(rc *RunCtx, prop string) {
 func (m *monC10) Finish(rc *RunCtx) {
 	sc := rc.Sc
 	runErrorViolation(rc, "C10")
+	if rc.Res.Status == "ok" {
+		m.irrigationInFull(rc)
+	}
 	if rc.Res.Status != "ok" {
 		return
 	}
@@ -405,6 +418,19 @@ func (m *monC10) Finish(rc *RunCtx) {
 		rc.Cov("runs_with_second_field_in_files", 1)
 	}
 	rc.Res.NonTrivial = rc.Res.Days > 30 && len(m.expFert)+len(m.expTill)+len(m.expIrr) > 0
+}
+
+// irrigationInFull: the water of an irrigation day (rain + irrigation - evaporation) is handed to the soil in sub-steps; what
+// the sub-steps of the day hand over together must be the whole of it
+func (m *monC10) irrigationInFull(rc *RunCtx) {
+	if !m.irrDay {
+		return
+	}
+	m.irrDay = false
+	if math.Abs(m.irrInfil-m.irrQ) > 1e-9*(1+math.Abs(m.irrQ)) {
+		rc.Violate("C10", "irrigation_not_infiltrated_in_full", fmt.Sprintf("%s: the water sub-steps of the irrigation day hand %.9g cm to the soil, the day's surface flux (rain + irrigation - evaporation) is %.9g cm", DateOfZeit(m.irrZeit), m.irrInfil, m.irrQ), m.irrZeit, 0, nil)
+	}
+	rc.Cov("irrigation_days_infiltration_summed", 1)
 }
 
 func init() {
